@@ -114,7 +114,19 @@ def _role(P, name, ins, out):
 
 def _gf(P):
     """the field collector: (context, selection set, branch) -> the Left / Right fields"""
-    return _role(P, OT + "type_printer::get_fields_for_selection_set", ["QueryTypePrinterContext", "SelectionSet", "BranchingCondition"], "Either<")
+    try:
+        return _role(P, OT + "type_printer::get_fields_for_selection_set", ["QueryTypePrinterContext", "SelectionSet", "BranchingCondition"], "Either<")
+    except AnchorMissing:
+        # a collector object: the method that takes a selection set and returns the Left / Right fields
+        return _role(P, OT + "type_printer::get_fields_for_selection_set", ["Collector", "SelectionSet"], "Vec<either::Either<")
+
+
+def _csd(P):
+    """the skip test: (branch or collector, directives) -> bool"""
+    try:
+        return _role(P, OT + "type_printer::check_skip_directive", ["BranchingCondition", "Directive"], "bool")
+    except AnchorMissing:
+        return _role(P, OT + "type_printer::check_skip_directive", ["Collector", "[nitrogql_ast::directive::Directive"], "bool")
 
 
 def _vis(P):
@@ -343,7 +355,7 @@ def _gf_paths(P, R, rule, keys):
     if id(P) not in _GF:
         gf = _gf(P)
         cfc = _role(P, OT + "type_printer::check_fragment_condition", ["QueryTypePrinterContext", "ObjectDefinition", "str"], "bool")
-        csd = _role(P, OT + "type_printer::check_skip_directive", ["BranchingCondition", "Directive"], "bool")
+        csd = _csd(P)
         gt = P.fn(OT + "type_printer::get_type_for_selection_set")
         names = {"cfc": cfc.path, "csd": csd.path, "gt": gt.path, "gf": gf.path}
         ext = P.fn("nitrogql_semantics::direct_fields_of_output_type::direct_fields_of_output_type", required=False)
@@ -763,6 +775,22 @@ def _e_branches(P, R):
         else:
             _tri(R, "R02-e", "branch-pairing", True if keyed else None, "the right-hand partner of a branch is found by `type_name`, never by position",
                  und="how the right-hand partner of a branch is selected is not recognised (no `type_name` in its computation)", loc=g0.loc())
+    # a found partner is discarded only by a test that reads *all* it could contribute
+    CONTENT = {"unaliased_fields", "aliased_fields"}
+    partial = None
+    conds = [n["cond"] for n in g.walk() if n.get("k") == "If"] + [a["guard"] for n in g.walk() if n.get("k") == "Match" for a in n["arms"] if "guard" in a]
+    conds += [x["args"][0] for x in g.walk() if x.get("k") == "MethodCall" and x["method"] in ("filter", "take_if", "is_some_and", "is_none_or", "take_while", "skip_while", "retain")
+              and x["args"] and x["args"][0].get("k") == "Closure"]
+    for c in conds:
+        a = pv.atoms(c)
+        reads = {x[2] for x in a if x[0] == "field" and x[1] == STB and x[2] in CONTENT}
+        if reads and reads != CONTENT and (("param", "right") in a or from_right(c)):
+            partial = sorted(reads)
+    if partners:
+        R.check("R02-e", "branch-pairing:partner-content", partial is None, "a found partner is never discarded by a test on part of its content",
+                "merge_selection_trees decides whether to use a right-hand branch by a test that reads only %s of it (not %s): a partner whose other field list is "
+                "non-empty is treated as absent, its fields are not merged into the branch — a key selected there stays `?: never`"
+                % (partial, sorted(CONTENT - set(partial or []))), loc=g0.loc())
     # the right side is not used up while the left branches are paired
     loops = [(i, n) for i, (n, _) in enumerate(acc) if n.get("k") == "Match" and n.get("src") == "ForLoopDesugar" and ("param", "left") in pv.atoms(n["scrut"])]
     used_up = []
@@ -895,6 +923,23 @@ def _f_condition_table(P, R):
             R.check("R02-f", "type-condition:" + k, ok, "a %s condition is compared with the branch's object type" % k,
                     "check_fragment_condition does not relate a %s type condition to the branch's concrete object type: fragments on that "
                     "kind are applied to every branch (keys appear in types of objects that never have them)" % k, loc=f0.loc())
+        # the question is "does the object (through the interfaces it lists) reach the fragment's interface": whatever is expanded to *its*
+        # interfaces must come from the object's side, never from the fragment's condition
+        if len(objs) == 1:
+            up = []
+            for x in f.walk():
+                if x.get("k") == "Field" and norm(x.get("adt") or "") == TSD + "InterfaceDefinition" and x["field"] == "interfaces":
+                    a = pv.atoms(x["e"])
+                    from_obj = ("param", objs[0]) in a or has_field(a, TSD + "ObjectDefinition", "interfaces")
+                    from_cond = any(y[0] == "param" and y[1] != objs[0] and "str" in str(next((p.get("t") for p in f0.params if pv.params.get(p.get("local")) == y[1]), "")) for y in a) \
+                        or has_field(a, TSD + "InterfaceDefinition", "name")
+                    up.append((from_obj, from_cond))
+            wrong = [u for u in up if u[1] and not u[0]]
+            if up:
+                R.check("R02-f", "type-condition:Interface:direction", not wrong, "interfaces are walked upwards from the object's side only",
+                        "check_fragment_condition expands the interfaces of the *fragment's* interface (a value computed from the type condition, not from the "
+                        "branch's object) and compares them with what the object lists: it asks whether the condition implements one of the object's interfaces "
+                        "instead of the reverse, so a fragment on a sub-interface is applied to every object of the super-interface", loc=f0.loc())
         pos = _positional_over(f, {(TSD + "ObjectDefinition", "interfaces"), (TSD + "UnionDefinition", "possible_types")})
         R.check("R02-f", "type-condition:every-element", not pos, "all interfaces of the object / all members of the union are compared",
                 "check_fragment_condition looks at %s by position (%s): an object is matched against its first interface / a union against its first member "
@@ -978,7 +1023,7 @@ def _f_sites(P, R):
 def _f_skip_table(P, R):
     """the @skip/@include table, read off the abstract paths of the skip test over one undetermined directive: (directive name literal, kind of
     the `if` value, boolean) -> skipped / kept and the scan goes on / kept and the scan stops"""
-    f = _role(P, OT + "type_printer::check_skip_directive", ["BranchingCondition", "Directive"], "bool")
+    f = _csd(P)
     keys = ["skip-table:@skip", "skip-table:@include", "skip-table:every-directive"]
     roles = {}
 
@@ -2218,7 +2263,9 @@ class _Abs:
                     for x in self.elems(r):
                         return _some(x)
                     return _none()
-                if name in ("len", "count", "contains", "get", "get_mut", "binary_search", "capacity", "position") and not any(isinstance(_d(a), _Clo) for a in A):
+                if name in ("len", "count") and not A:
+                    return sum(1 for _ in self.elems(r))       # consistent with what iterating it yields on this path
+                if name in ("contains", "get", "get_mut", "binary_search", "capacity", "position") and not any(isinstance(_d(a), _Clo) for a in A):
                     return self.opq(name, r, *A, atoms=[("call", name)])
                 if name in ("push", "push_back", "extend", "extend_from_slice", "insert", "append", "clear", "truncate", "retain", "remove", "sort", "dedup", "reverse"):
                     raise _Unknown("in-place `%s` on an undetermined sequence" % name)
